@@ -1,13 +1,44 @@
 """C08: global numbering and boundary partition (Dof.tla / DofMC.tla / DofTrace.tla)."""
 
+from ..core import MachineryError
+
+
+def fields(ctx):
+    """field-update part: heap model of container operations (Fields.tla), programs exported by FieldsMC, executed steps judged by FieldsTrace"""
+    import os
+    thorough = ctx.tier == "thorough"
+    r = ctx.tlc_model("FieldsTrace", "FieldsRef.cfg", workers=1, env={"TRACE_FILE": "/dev/null", "VERDICT_FILE": "/dev/null"})
+    ctx.require_model_ok(r)
+    if thorough:
+        r = ctx.tlc_model("FieldsMC", "FieldsMC4.cfg", workers=16, timeout=3600)        # theorems only, depth 4
+        ctx.require_model_ok(r)
+    r = ctx.tlc("FieldsMC", "FieldsMC.cfg", workers=1, timeout=1800, tag="fieldprograms")
+    if r["rc"] != 0:
+        raise MachineryError("FieldsMC failed rc=%s\n%s" % (r["rc"], r["out"][-3000:]))
+    lines = [ln for ln in r["out"].splitlines() if "PROGRAM|" in ln]
+    # long random programs (simulation mode of the same spec)
+    sim = ctx.tlc("FieldsMC", "FieldsSim.cfg", workers=1, timeout=1800, tag="fieldsim",
+                  simulate="num=%d" % (200 if thorough else 20), extra_args=["-depth", "10", "-seed", str(1000 + ctx.seed)])
+    if sim["rc"] != 0:
+        raise MachineryError("FieldsMC simulation failed rc=%s\n%s" % (sim["rc"], sim["out"][-3000:]))
+    lines += [ln for ln in sim["out"].splitlines() if "PROGRAM|" in ln]
+    path = os.path.join(ctx.work, "fieldprograms.txt")
+    with open(path, "w") as f:
+        f.write("\n".join(lines) + "\n")
+    ctx.extra["field_programs_exported"] = len(set(lines))
+    shards = ctx.drive("d08f", nshards=16, extra=["--opt", "programs=%s" % path], name="d08f")
+    ctx.validate("FieldsTrace", shards)
+
 
 def run(ctx):
     r = ctx.tlc_model("DofMC", workers=8)
     ctx.require_model_ok(r)
     shards = ctx.drive("d08", nshards=16)
     ctx.validate("DofTrace", shards)
+    fields(ctx)
     ctx.require_clauses(["Disjoint", "Cover", "Dof0Exact", "Dof1Exact", "Ext0Exact", "BoundaryDofs", "ValuesOrder", "UpdateSplit",
-                         "AssemblyRow", "IndicesEai", "LoadCaseExact", "LoadCasePartition"])
+                         "AssemblyRow", "IndicesEai", "LoadCaseExact", "LoadCasePartition",
+                         "ContainersConform", "FieldSharingConforms", "ArraySharingConforms", "ContentConforms"])
     ctx.rule = ("partition: every dof mask of one boundary on a 4-point/2-component container (256, exhaustive) + seeded random containers "
                 "(line / quad / mixed u-p-J with dual fields / three fields of dims 3,1,2; 0-2 cell-less points; 0-3 possibly overlapping "
                 "boundaries of kinds dof mask, point mask + skip, coordinate predicates and/or + skip; scalar, per-dof and broadcast-row values); "
